@@ -115,6 +115,9 @@ def synth_texts(rng, n):
     for lang, d in LANGS.items():
         pool = FRAGS["common"] + (FRAGS["Python"] if lang == "Python" else FRAGS["brace"])
         out += [(lang, ""), (lang, "\n"), (lang, "\n\n\n"), (lang, "x"), (lang, "x\n"), (lang, " \n\t\n")]
+        # a byte order mark / zero-width character in front of several lines: positions on LATER lines too
+        body = "".join(pool[:6])
+        out += [(lang, "\ufeff" + body), (lang, "\ufeff\n" + body), (lang, "\u200b" + body), (lang, "\ufeff" + body.rstrip("\n"))]
         for _ in range(n):
             k = rng.randint(1, 12)
             t = "".join(rng.choice(pool) for _ in range(k))
